@@ -281,6 +281,8 @@ META = (META[0] + " " + META_EXTRA, META[1])
 
 
 def run(chk, tier):
+    from ..rules import params as _PR
+    _PR.check(chk, D.load("checks"), ['_strings/from_integer', '_strings/to_integer', '_charconv/', '_string/to_string', '_cstdlib/'], floor=8)
     db = D.load("plain")
     bound_rule(chk, db)
     map_rule(chk, db)
